@@ -155,26 +155,29 @@ FsResult(n, crashedExpected) ==
 TFsNew == /\ E.ev = "FsNew" /\ ~skipping
           /\ LET a == Adopt(E.dir, 0, 0, 0, 0) IN FsResult([ScanW(a, a.files) EXCEPT !.cur = 0], FALSE)
 \* the pushed file exists on disk (the harness created it); the set learns about it
-TFsPush == /\ E.ev = "FsPush" /\ ~skipping
+TFsPush == /\ E.ev = "FsPush" /\ ~skipping /\ poss # {}
            /\ LET s == TheS
                   f == File(s.nextId, E.len, 0 - E.ageS, 1, 0, 0, FALSE)
                   n == PushSortedW([s EXCEPT !.files = Append(@, f), !.nextId = @ + 1], Entry(s.nextId, E.setLen, 0 - E.ageS))
               IN FsResult(n, FALSE)
-TFsDeleteOldest == /\ E.ev = "FsDeleteOldest" /\ ~skipping
+TFsDeleteOldest == /\ E.ev = "FsDeleteOldest" /\ ~skipping /\ poss # {}
                    /\ IF TheS.known = <<>> THEN FsResult(TheS, TRUE)
                       ELSE LET n == DeleteOldestW(TheS) IN FsResult([n EXCEPT !.crashed = FALSE], n.crashed)
-TFsOlder == /\ E.ev = "FsDeleteOlderThan" /\ ~skipping
+TFsOlder == /\ E.ev = "FsDeleteOlderThan" /\ ~skipping /\ poss # {}
             /\ LET n == OlderTrimW(TheS, 0 - E.nowAgeS, E.durS) IN FsResult([n EXCEPT !.crashed = FALSE], n.crashed)
-TFsTrim == /\ E.ev = "FsTrimTo" /\ ~skipping
+TFsTrim == /\ E.ev = "FsTrimTo" /\ ~skipping /\ poss # {}
            /\ LET n == SizeTrimW(TheS, E.max) IN FsResult([n EXCEPT !.crashed = FALSE], n.crashed)
 
 TConfig == /\ E.ev = "Config" /\ ~skipping
            /\ IF ConfigOk(E.args, E.got) THEN UNCHANGED <<bad, skipping, nvalid, sok, poss, big, crashes>>
               ELSE Fail(<<"Config", E.args, "got", E.got>>)
+\* (an operation on a file set that was never made: only a damaged trace has this)
+TFsOrphan == /\ E.ev \in {"FsPush", "FsDeleteOldest", "FsDeleteOlderThan", "FsTrimTo"} /\ ~skipping /\ poss = {}
+             /\ Fail(<<E.ev, "without a file set">>)
 TSkip == E.ev # "Reset" /\ skipping /\ UNCHANGED <<bad, skipping, nvalid, sok, poss, big, crashes>>
 TNext == l <= Len(Rec) /\ l' = l + 1
          /\ (TReset \/ TStart \/ TCrash \/ TBatch \/ TStop \/ TInconclusive \/ TFsNew \/ TFsPush \/ TFsDeleteOldest \/ TFsOlder
-             \/ TFsTrim \/ TConfig \/ TSkip)
+             \/ TFsTrim \/ TFsOrphan \/ TConfig \/ TSkip)
 TSpec == TInit /\ [][TNext]_tvars
 Report == IF l = Len(Rec) + 1
           THEN JsonSerialize(IOEnv.REPORT, [nvalid |-> Count, bad |-> SetToSeq(bad), events |-> Len(Rec)])
